@@ -27,6 +27,7 @@ type HarnessGroup struct {
 	MapOrderT    int                       `json:"maporder_thorough"`
 	MaxSteps     int                       `json:"maxsteps"`
 	MaxLoop      int                       `json:"maxloop"`
+	BoundedLoops map[string]int            `json:"bounded_loops"`
 	Require      []string                  `json:"require_reach"`
 	ThoroughOnly []string                  `json:"thorough_only"`
 	ExtraInterp  []string                  `json:"extra_interp"`
@@ -134,6 +135,9 @@ func cmdCheck(args []string) int {
 		}
 		if g.MaxLoop > 0 {
 			cfg.MaxLoop = g.MaxLoop
+		}
+		for k, v := range g.BoundedLoops {
+			cfg.BoundedLoops[k] = v
 		}
 		cfg.MapOrder = g.MapOrderQ
 		if *tier == "thorough" {
